@@ -195,6 +195,23 @@ fn pick_type(p: &Program, rng: &mut Rng, deps: &mut BTreeSet<usize>, allow_void_
     }
 }
 
+/// a declared type the declaration under construction does not depend on yet (so that the use
+/// being generated is the only path to it); falls back to `pick_type`
+fn pick_fresh_type(p: &Program, rng: &mut Rng, deps: &mut BTreeSet<usize>) -> String {
+    let fresh: Vec<usize> = p.decls.iter().enumerate().filter(|(i, d)| d.kind.is_type() && d.kind != DKind::Template && !deps.contains(i)).map(|(i, _)| i).collect();
+    if fresh.is_empty() {
+        return pick_type(p, rng, deps, true);
+    }
+    let t = *rng.pick(&fresh);
+    deps.insert(t);
+    let base = p.type_ref(t);
+    match rng.below(4) {
+        0 | 1 => base,
+        2 => format!("{base} *"),
+        _ => format!("const {base} *"),
+    }
+}
+
 fn field(p: &Program, rng: &mut Rng, deps: &mut BTreeSet<usize>, idx: usize) -> String {
     let t = pick_type(p, rng, deps, true);
     match rng.below(12) {
@@ -333,11 +350,11 @@ pub fn generate(rng: &mut Rng, shape: &Shape) -> Program {
                 }
                 if virt {
                     // virtual methods: their signature types are needed by the vtable struct
-                    let a = pick_type(&p, rng, &mut deps, true);
-                    let r = pick_type(&p, rng, &mut deps, true);
+                    let a = pick_fresh_type(&p, rng, &mut deps);
+                    let r = pick_fresh_type(&p, rng, &mut deps);
                     body.push_str(&format!("  virtual {r} fv1({a} a);\n"));
                     if rng.chance(1, 2) {
-                        let a2 = pick_type(&p, rng, &mut deps, true);
+                        let a2 = pick_fresh_type(&p, rng, &mut deps);
                         body.push_str(&format!("  virtual void fv2({a2} a, int b) const;\n"));
                     }
                 }
